@@ -24,4 +24,5 @@ props! {
     "C02" => c02,
     "C03" => c03,
     "C04" => c04,
+    "C05" => c05,
 }
